@@ -44,7 +44,8 @@ def run(opts):
         part = cases[lo:lo + 20000]
         exp, skipped, states = vf.tlc_oracle("Oracle_FieldProps", "Oracle_FieldProps.cfg",
                                              [{k: v for k, v in c.items() if k not in ("deck", "twin")} for c in part], chk.rundir)
-        chk.states += states
+        chk.states += states[0]
+        chk.transitions += states[1]
         for e in exp.values():
             outcomes[e["res"]] += 1
         cpath = os.path.join(chk.rundir, "cases.ndjson")
